@@ -255,6 +255,9 @@ impl Runnable for Cfg {
             Algo::Shuffle => "seeded_shuffle",
             Algo::Bootstrap => "seeded_bootstrap",
         });
+        let seeded = matches!(self.algo, Algo::Shuffle | Algo::Bootstrap);
+        obs.class_if(seeded && crate::BOUNDARY_SEEDS.contains(&self.rng_seed), "boundary_rng_seed");
+        obs.class_if(seeded && self.rng_seed == 0, "rng_seed_zero");
         let text = matches!(self.algo, Algo::CountVectorizer | Algo::TfIdf);
         obs.class_if(self.wide && !text, "more_than_64_features");
         let mut vocab = 0usize;
@@ -284,7 +287,7 @@ pub fn strategy(tier: Tier) -> impl Strategy<Value = Cfg> {
         1 => Just(Algo::Shuffle),
         2 => Just(Algo::Bootstrap),
     ];
-    (algo, any::<u64>(), any::<u64>(), 8usize..=max_n, 2usize..=5, any::<u8>(), 1usize..=3, 0usize..=12, 3usize..=24, proptest::bool::weighted(0.12)).prop_map(
+    (algo, any::<u64>(), crate::seed_strategy(), 8usize..=max_n, 2usize..=5, any::<u8>(), 1usize..=3, 0usize..=12, 3usize..=24, proptest::bool::weighted(0.12)).prop_map(
         |(algo, data_seed, rng_seed, n, p, variant, ngram, max_features, words, wide)| Cfg {
             algo,
             data_seed,
@@ -298,4 +301,25 @@ pub fn strategy(tier: Tier) -> impl Strategy<Value = Cfg> {
             wide,
         },
     )
+}
+
+pub fn boundary_seed_cases() -> Vec<Cfg> {
+    let mut v = vec![];
+    for (i, &seed) in crate::BOUNDARY_SEEDS.iter().enumerate() {
+        for (algo, variant) in [(Algo::Shuffle, 0u8), (Algo::Bootstrap, i as u8)] {
+            v.push(Cfg {
+                algo,
+                data_seed: 0x5a0f + i as u64,
+                rng_seed: seed,
+                n: 30,
+                p: 3,
+                variant,
+                ngram: 1,
+                max_features: 0,
+                words: 5,
+                wide: false,
+            });
+        }
+    }
+    v
 }
